@@ -4,7 +4,7 @@ from __future__ import annotations
 import collections
 import json
 import random
-import shutil
+import time
 from pathlib import Path
 
 from pgverif import search, tlc
@@ -94,18 +94,26 @@ def _absorb(chk, results, source, stats):
                     'uninterrupted': detail.get('uninterrupted'), 'recovered': detail.get('recovered')})
 
 
-def _check_and_cover(chk, cfg, env, spaces, pmap, stats, limit, timeout=1500):
-  """Exhaustive TLC run (+ state graph); replays a transition cover (or a stratified sample of it)."""
+def _check_and_cover(chk, cfg, env, spaces, pmap, stats, limit, timeout=1500, cover=True):
+  """Exhaustive TLC run; with cover=True the state graph is dumped and a transition cover of it (or a
+  stratified sample of `limit` paths) is replayed on the real code."""
+  t0 = time.time()
   dump = WORK / 'c15' / f'graph-{Path(cfg).stem}-{chk.seed}'
-  r = tlc.run('Search', cfg, env=env, timeout=timeout, extra=['-dump', 'dot,actionlabels', str(dump)])
+  r = tlc.run('Search', cfg, env=env, timeout=timeout,
+              extra=['-dump', 'dot,actionlabels', str(dump)] if cover else None)
   chk.add_tlc(r)
   chk.notes.setdefault('tlc_runs', []).append(r.summary())
   if not r.ok:
     raise tlc.TLCError(f'{cfg}: {r.violated} violated in the intended model:\n' + r.out[-3000:])
   chk.require(r.distinct > 1000, f'{cfg}: suspiciously small state space ({r.distinct})')
+  t1 = time.time()
+  if not cover:
+    chk.notes.setdefault('timing_s', {})[cfg] = dict(tlc=round(t1 - t0, 1))
+    return
   nodes, out, inits = search.read_dump(str(dump) + '.dot')
   Path(str(dump) + '.dot').unlink(missing_ok=True)
   paths = search.transition_cover(nodes, out, inits)
+  t2 = time.time()
   chk.count('cover_paths:' + cfg, len(paths))
   if limit and len(paths) > limit:
     rng = random.Random(chk.seed)
@@ -123,18 +131,24 @@ def _check_and_cover(chk, cfg, env, spaces, pmap, stats, limit, timeout=1500):
   behs = [search.behaviour_of_path(nodes, p) for p in paths]
   res = search.replay_all(spaces, _jobs(chk, behs, pmap, len(spaces)))
   _absorb(chk, res, cfg, stats)
+  chk.notes.setdefault('timing_s', {})[cfg] = dict(tlc=round(t1 - t0, 1), graph=round(t2 - t1, 1),
+                                                   replay=round(time.time() - t2, 1), behaviours=len(behs))
 
 
 def _simulate(chk, cfg, env, spaces, pmap, stats, num, depth, workers=4):
+  t0 = time.time()
   behs, r = tlc.simulate('Search', cfg, num=num // workers, depth=depth, seed=chk.seed * 7919 + 11, env=env,
-                         workers=workers, timeout=1500)
+                         workers=workers, timeout=1500, name=f'sim-Search-{Path(cfg).stem}-{chk.seed}')
   chk.add_tlc(r, count_states=False)
   chk.transitions += r.generated
   if not r.ok:
     raise tlc.TLCError(f'{cfg}: {r.violated} violated during simulation of the intended model:\n' + r.out[-3000:])
+  t1 = time.time()
   behs = [search.behaviour_of_steps(b) for b in behs if len(b) > 2]
   res = search.replay_all(spaces, _jobs(chk, behs, pmap, len(spaces)))
-  _absorb(chk, res, cfg, stats)
+  _absorb(chk, res, cfg + ' (simulation)', stats)
+  chk.notes.setdefault('timing_s', {})[cfg + ' (simulation)'] = dict(
+      tlc=round(t1 - t0, 1), replay=round(time.time() - t1, 1), behaviours=len(behs))
 
 
 def _mirror(chk, env, spaces, pmap, stats):
@@ -175,9 +189,11 @@ def run(chk):
   stats = collections.Counter()
   spaces, pmap, env = _streams(chk, 3, 24 if thorough else 8, 10 if thorough else 9, 'd3')
   if not thorough:
-    _check_and_cover(chk, 'C15_quick.cfg', env, spaces, pmap, stats, limit=1100)
-    _check_and_cover(chk, 'C15_ooo.cfg', env, spaces, pmap, stats, limit=500)
+    _check_and_cover(chk, 'C15_quick.cfg', env, spaces, pmap, stats, limit=0, cover=False)
+    _check_and_cover(chk, 'C15_ooo.cfg', env, spaces, pmap, stats, limit=0, cover=False)
     _mirror(chk, env, spaces, pmap, stats)
+    _simulate(chk, 'C15_quick.cfg', env, spaces, pmap, stats, num=800, depth=16)
+    _simulate(chk, 'C15_ooo.cfg', env, spaces, pmap, stats, num=400, depth=12)
     _simulate(chk, 'C15_sim.cfg', env, spaces, pmap, stats, num=240, depth=22)
   else:
     _check_and_cover(chk, 'C15_thorough.cfg', env, spaces, pmap, stats, limit=0, timeout=3000)
